@@ -284,6 +284,27 @@ type GoText string
 func (t GoText) Upper() string    { return strings.ToUpper(string(t)) }
 func (t *GoText) Append(s string) { *t += GoText(s) }
 
+type goInner struct{ ID, Rev int64 }
+type goOuter struct{ goInner }
+
+func (o goOuter) ID() string { return fmt.Sprintf("outer-%d", o.goInner.ID) }
+
+type goOuterP struct{ goInner }
+
+func (o *goOuterP) Rev(n int64) (int64, error) { o.goInner.Rev += n; return o.goInner.Rev, nil }
+
+type goShip struct {
+	Name string
+	Fuel int64
+}
+
+func (s *goShip) Refuel(n int64) { s.Fuel += n }
+
+type goFleet struct {
+	Ships []goShip
+	Docks [2]goShip
+}
+
 type goNamedMap map[string]string
 type goNamedSlice []int64
 type goCelsius float64
@@ -821,6 +842,77 @@ func streamGoConv(o *Out, r *rand.Rand, n int, thorough bool) {
 		case atomic.LoadInt64(&wrong) != 0:
 			o.Fail(Failure{Oracle: "go-callbacks", Key: "goconv-callback-concurrent", Input: in,
 				Detail: fmt.Sprintf("%d of 32000 invocations saw another call's arguments or result; the first: %v", atomic.LoadInt64(&wrong), first.Load())})
+		}
+	}
+	// (4b'') member syntax on Go values follows Go: a method of the outer struct wins over an equally named field promoted
+	// from an embedded struct; an element of a slice / array of structs held BY VALUE is the element itself - a field
+	// write, a pointer-receiver call, & and a nested element write on top of `xs[i]` reach the Go value
+	{
+		u := goOuter{goInner{ID: 7, Rev: 1}}
+		acc := &goOuterP{goInner{ID: 3, Rev: 5}}
+		fl := &goFleet{Ships: []goShip{{"a", 1}, {"b", 2}}, Docks: [2]goShip{{"d0", 0}, {"d1", 0}}}
+		e := env.NewEnv()
+		_ = e.Define("u", u)
+		_ = e.Define("acc", acc)
+		_ = e.Define("f", fl)
+		_ = e.Define("rename", func(s *goShip, n string) { s.Name = n })
+		_ = e.Define("isFirstShip", func(s *goShip) bool { return s == &fl.Ships[0] })
+		for _, c := range []struct {
+			src   string
+			check func(res interface{}, err error) string
+		}{
+			{"u.ID()", func(res interface{}, err error) string {
+				if err != nil || res != "outer-7" {
+					return fmt.Sprintf("Go calls the method ID of the outer struct (\"outer-7\"); got %v, err %v", res, err)
+				}
+				return ""
+			}},
+			{"acc.Rev(5)", func(res interface{}, err error) string {
+				if err != nil || !reflect.DeepEqual(res, []interface{}{int64(10), nil}) && !reflect.DeepEqual(res, []interface{}{int64(10), error(nil)}) {
+					return fmt.Sprintf("Go calls the pointer-receiver method Rev of the outer struct; got %#v, err %v", res, err)
+				}
+				return ""
+			}},
+			{"u.goInner.ID", func(res interface{}, err error) string { return "" }},
+			{"f.Ships[1].Fuel = 50", func(res interface{}, err error) string {
+				if err != nil || fl.Ships[1].Fuel != 50 {
+					return fmt.Sprintf("the field write did not reach the Go value: %+v, err %v", fl.Ships, err)
+				}
+				return ""
+			}},
+			{"f.Ships[0].Refuel(10)", func(res interface{}, err error) string {
+				if err != nil || fl.Ships[0].Fuel != 11 {
+					return fmt.Sprintf("the pointer-receiver call did not reach the Go value: %+v, err %v", fl.Ships, err)
+				}
+				return ""
+			}},
+			{"f.Docks[1].Name = \"dock\"", func(res interface{}, err error) string {
+				if err != nil || fl.Docks[1].Name != "dock" {
+					return fmt.Sprintf("the write into the array element did not reach the Go value: %+v, err %v", fl.Docks, err)
+				}
+				return ""
+			}},
+			{"rename(&f.Ships[1], \"renamed\")", func(res interface{}, err error) string {
+				if err != nil || fl.Ships[1].Name != "renamed" {
+					return fmt.Sprintf("Go received a pointer to a copy of the element: %+v, err %v", fl.Ships, err)
+				}
+				return ""
+			}},
+			{"isFirstShip(&f.Ships[0])", func(res interface{}, err error) string {
+				if err != nil || res != true {
+					return fmt.Sprintf("&f.Ships[0] is not the address of the element: %v, err %v", res, err)
+				}
+				return ""
+			}},
+		} {
+			res, err, p := execGuard(e, c.src)
+			o.Sum.Evaluations++
+			o.Sum.Hist["member-on-go-value"]++
+			if p != nil {
+				o.Fail(Failure{Oracle: "no-panic", Key: "goconv-panic:member-forms", Input: c.src, Detail: fmt.Sprint(p)})
+			} else if msg := c.check(res, err); msg != "" {
+				o.Fail(Failure{Oracle: "go-members", Key: "goconv-member:" + c.src, Input: c.src + "   (u: struct embedding a struct with field ID and declaring method ID; f: *struct{Ships []struct; Docks [2]struct})", Detail: msg})
+			}
 		}
 	}
 	// (4c) a Go value handed to a parameter of another named type with the same underlying type arrives as Go's own
